@@ -1,2 +1,941 @@
-(* Proofs/LimiterProofs.v -- in progress *)
+(* Proofs/LimiterProofs.v -- invariants of Model/Limiter.v and the lemmas behind Props/C12.v *)
 From MV Require Import Base.Prelude Base.Res Model.Limiter.
+
+(* ------------------------------------------------------------------ tactics *)
+Ltac b2p :=
+  repeat match goal with
+  | H : context [N.eqb ?a ?b] |- _ => destruct (N.eqb_spec a b)
+  | |- context [N.eqb ?a ?b] => destruct (N.eqb_spec a b)
+  | H : context [N.ltb ?a ?b] |- _ => destruct (N.ltb_spec a b)
+  | |- context [N.ltb ?a ?b] => destruct (N.ltb_spec a b)
+  | H : context [N.leb ?a ?b] |- _ => destruct (N.leb_spec a b)
+  | |- context [N.leb ?a ?b] => destruct (N.leb_spec a b)
+  end.
+
+Ltac proj := cbn [max_cap max_size cur_cap cur_size publish_flag waker_registered pl_waker paused woken
+                  may_call running submitted set_counts set_flag set_waker set_plw set_paused set_woken
+                  set_may set_running set_submitted c_size c_kind] in *.
+
+(* ------------------------------------------------------------------ lists *)
+Definition sum_sizes (l : list call) : N := fold_right (fun c a => c_size c + a) 0 l.
+
+Lemma lenN_app {A} (l : list A) x : lenN (l ++ [x]) = lenN l + 1.
+Proof. unfold lenN. rewrite app_length. cbn [length]. lia. Qed.
+
+Lemma sum_sizes_app l c : sum_sizes (l ++ [c]) = sum_sizes l + c_size c.
+Proof. induction l as [|h t IH]; cbn [sum_sizes fold_right app] in *; [lia|]. fold (sum_sizes (t ++ [c])). fold (sum_sizes t). lia. Qed.
+
+Lemma lenN_cons {A} (x : A) l : lenN (x :: l) = lenN l + 1.
+Proof. unfold lenN. cbn [length]. lia. Qed.
+
+Lemma remove_nth_len {A} (l : list A) k c :
+  nth_error l k = Some c -> lenN l = lenN (remove_nth k l) + 1.
+Proof.
+  revert k; induction l as [|h t IH]; intros [|k] H; cbn [nth_error remove_nth] in *; try discriminate.
+  - apply lenN_cons.
+  - rewrite !lenN_cons. rewrite (IH k H). reflexivity.
+Qed.
+
+Lemma remove_nth_sum l k c :
+  nth_error l k = Some c -> sum_sizes l = sum_sizes (remove_nth k l) + c_size c.
+Proof.
+  revert k; induction l as [|h t IH]; intros [|k] H; cbn [nth_error remove_nth] in *; try discriminate.
+  - injection H as ->. cbn [sum_sizes fold_right]. fold (sum_sizes t). lia.
+  - cbn [sum_sizes fold_right]. fold (sum_sizes t). fold (sum_sizes (remove_nth k t)). rewrite (IH k H). lia.
+Qed.
+
+Lemma count_kind_app p l c :
+  count_kind p (l ++ [c]) = count_kind p l + (if p (c_kind c) then 1 else 0).
+Proof.
+  unfold count_kind. rewrite filter_app. cbn [filter]. destruct (p (c_kind c)).
+  - apply lenN_app.
+  - rewrite app_nil_r. lia.
+Qed.
+
+Lemma count_kind_le_len p l : count_kind p l <= lenN l.
+Proof.
+  unfold count_kind, lenN. induction l as [|h t IH]; cbn [filter length]; [lia|].
+  destruct (p (c_kind h)); cbn [length]; lia.
+Qed.
+
+Lemma count_kind_remove p l k : count_kind p (remove_nth k l) <= count_kind p l.
+Proof.
+  unfold count_kind, lenN. revert k; induction l as [|h t IH]; intros [|k]; cbn [remove_nth filter length]; try lia.
+  - destruct (p (c_kind h)); cbn [length]; lia.
+  - specialize (IH k). destruct (p (c_kind h)); cbn [length]; lia.
+Qed.
+
+Lemma count_kind_mono (p q : kind -> bool) l :
+  (forall k, p k = true -> q k = true) -> count_kind p l <= count_kind q l.
+Proof.
+  intros Hpq. unfold count_kind, lenN. induction l as [|h t IH]; cbn [filter length]; [lia|].
+  destruct (p (c_kind h)) eqn:E.
+  - rewrite (Hpq _ E). cbn [length]. lia.
+  - destruct (q (c_kind h)); cbn [length]; lia.
+Qed.
+
+(* ------------------------------------------------------------------ frame facts *)
+Lemma task_wake_frame s :
+  max_cap (task_wake s) = max_cap s /\ max_size (task_wake s) = max_size s /\
+  cur_cap (task_wake s) = cur_cap s /\ cur_size (task_wake s) = cur_size s /\
+  publish_flag (task_wake s) = publish_flag s /\ pl_waker (task_wake s) = pl_waker s /\
+  paused (task_wake s) = paused s /\ may_call (task_wake s) = may_call s /\
+  running (task_wake s) = running s /\ submitted (task_wake s) = submitted s /\
+  (woken s = true -> woken (task_wake s) = true) /\
+  (waker_registered s = true -> woken (task_wake s) = true).
+Proof. unfold task_wake. destruct (waker_registered s); proj; repeat split; auto; discriminate. Qed.
+
+Lemma notify_frame s :
+  max_cap (notify s) = max_cap s /\ max_size (notify s) = max_size s /\
+  cur_cap (notify s) = cur_cap s /\ cur_size (notify s) = cur_size s /\
+  publish_flag (notify s) = publish_flag s /\ waker_registered (notify s) = waker_registered s /\
+  paused (notify s) = paused s /\ may_call (notify s) = may_call s /\
+  running (notify s) = running s /\ submitted (notify s) = submitted s /\
+  (woken s = true -> woken (notify s) = true).
+Proof. unfold notify. destruct (pl_waker s); proj; repeat split; auto. Qed.
+
+Lemma is_available_eq s t :
+  max_cap t = max_cap s -> max_size t = max_size s -> cur_cap t = cur_cap s -> cur_size t = cur_size s ->
+  is_available t = is_available s.
+Proof. unfold is_available. intros -> -> -> ->. reflexivity. Qed.
+
+(* ------------------------------------------------------------------ shape of the steps *)
+(* inc either panics or adds one call of the given size; flags other than woken / waker are kept *)
+Lemma inc_ok s g s' :
+  inc s g = Ok s' ->
+  max_cap s' = max_cap s /\ max_size s' = max_size s /\
+  cur_cap s' = cur_cap s + 1 /\ cur_size s' = cur_size s + g /\
+  publish_flag s' = publish_flag s /\ pl_waker s' = pl_waker s /\ paused s' = paused s /\
+  may_call s' = may_call s /\ running s' = running s /\ submitted s' = submitted s /\
+  (woken s = true -> woken s' = true).
+Proof.
+  unfold inc, add_chk. intros H.
+  destruct (cur_cap s + 1 <=? U16MAX); cbn [bind] in H; [|discriminate].
+  destruct (cur_size s + g <=? U64MAX); cbn [bind] in H; [|discriminate].
+  injection H as <-.
+  destruct ((cur_cap s + 1 =? max_cap s) || (max_size s <=? cur_size s + g)).
+  - pose proof (task_wake_frame (set_counts s (cur_cap s + 1) (cur_size s + g))) as F. proj.
+    destruct F as (-> & -> & -> & -> & -> & -> & -> & -> & -> & -> & Hw & _). repeat split; auto.
+  - proj. repeat split; auto.
+Qed.
+
+Lemma inc_no_panic s g site :
+  cur_cap s + 1 <= U16MAX -> cur_size s + g <= U64MAX -> inc s g <> Panic site.
+Proof.
+  unfold inc, add_chk. intros H1 H2.
+  destruct (N.leb_spec (cur_cap s + 1) U16MAX); [|lia]. cbn [bind].
+  destruct (N.leb_spec (cur_size s + g) U64MAX); [|lia]. cbn [bind]. discriminate.
+Qed.
+
+Lemma dec_ok s g s' :
+  dec s g = Ok s' ->
+  1 <= cur_cap s /\ g <= cur_size s /\
+  max_cap s' = max_cap s /\ max_size s' = max_size s /\
+  cur_cap s' = cur_cap s - 1 /\ cur_size s' = cur_size s - g /\
+  publish_flag s' = publish_flag s /\ pl_waker s' = pl_waker s /\ paused s' = paused s /\
+  may_call s' = may_call s /\ running s' = running s /\ submitted s' = submitted s /\
+  (woken s = true -> woken s' = true) /\
+  (waker_registered s = true ->
+   ((cur_cap s =? max_cap s) || ((max_size s <? cur_size s) && (cur_size s - g <=? max_size s))) = true ->
+   woken s' = true) /\
+  (((cur_cap s =? max_cap s) || ((max_size s <? cur_size s) && (cur_size s - g <=? max_size s))) = false ->
+   waker_registered s' = waker_registered s).
+Proof.
+  unfold dec, sub_chk. intros H.
+  destruct (N.leb_spec 1 (cur_cap s)); cbn [bind] in H; [|discriminate].
+  destruct (N.leb_spec g (cur_size s)); cbn [bind] in H; [|discriminate].
+  injection H as <-.
+  destruct ((cur_cap s =? max_cap s) || ((max_size s <? cur_size s) && (cur_size s - g <=? max_size s))).
+  - pose proof (task_wake_frame (set_counts s (cur_cap s - 1) (cur_size s - g))) as F. proj.
+    destruct F as (-> & -> & -> & -> & -> & -> & -> & -> & -> & -> & Hw & Hr).
+    repeat split; auto. discriminate.
+  - proj. repeat split; auto. discriminate.
+Qed.
+
+Lemma dec_no_panic s g site : 1 <= cur_cap s -> g <= cur_size s -> dec s g <> Panic site.
+Proof.
+  unfold dec, sub_chk. intros H1 H2.
+  destruct (N.leb_spec 1 (cur_cap s)); [|lia]. cbn [bind].
+  destruct (N.leb_spec g (cur_size s)); [|lia]. cbn [bind]. discriminate.
+Qed.
+
+Definition gsize_of (s : lim) (size : N) : N := if 0 <? max_size s then size else 0.
+Definition flag_after (s : lim) (k : kind) : bool := is_publish k || (publish_flag s && is_chunk k).
+
+Lemma first_poll_ok s k size s' :
+  first_poll s k size = Ok s' ->
+  paused s = false /\
+  max_cap s' = max_cap s /\ max_size s' = max_size s /\
+  cur_cap s' = cur_cap s + 1 /\ cur_size s' = cur_size s + gsize_of s size /\
+  publish_flag s' = flag_after s k /\ paused s' = false /\ may_call s' = may_call s /\
+  running s' = running s ++ [mkCall k (gsize_of s size)] /\ submitted s' = submitted s /\
+  (woken s = true -> woken s' = true).
+Proof.
+  unfold first_poll. intros H. destruct (paused s) eqn:Ep; [discriminate|].
+  fold (gsize_of s size) in H.
+  set (f := if is_publish k then true else if publish_flag s && negb (is_chunk k) then false else publish_flag s) in *.
+  assert (Ef : f = flag_after s k).
+  { unfold f, flag_after. destruct (is_publish k), (publish_flag s), (is_chunk k); reflexivity. }
+  destruct (inc (set_flag s f) (gsize_of s size)) as [s2| |] eqn:Ei; cbn [bind] in H; try discriminate.
+  injection H as <-.
+  apply inc_ok in Ei. proj. destruct Ei as (A1 & A2 & A3 & A4 & A5 & A6 & A7 & A8 & A9 & A10 & A11).
+  pose proof (notify_frame s2) as (B1 & B2 & B3 & B4 & B5 & B6 & B7 & B8 & B9 & B10 & B11).
+  proj. rewrite B1, B2, B3, B4, B5, B7, B8, B9, B10, A1, A2, A3, A4, A5, A7, A8, A9, A10, Ef, Ep.
+  repeat split; auto.
+Qed.
+
+Lemma first_poll_no_panic s k size site :
+  cur_cap s + 1 <= U16MAX -> cur_size s + gsize_of s size <= U64MAX -> first_poll s k size <> Panic site.
+Proof.
+  unfold first_poll. intros H1 H2. destruct (paused s); [discriminate|].
+  fold (gsize_of s size).
+  match goal with |- context [inc ?x ?g] => destruct (inc x g) eqn:Ei end; cbn [bind]; try discriminate.
+  exfalso. revert Ei. apply inc_no_panic; proj; assumption.
+Qed.
+
+Lemma step_ready_frame s :
+  max_cap (step_ready s) = max_cap s /\ max_size (step_ready s) = max_size s /\
+  cur_cap (step_ready s) = cur_cap s /\ cur_size (step_ready s) = cur_size s /\
+  publish_flag (step_ready s) = publish_flag s /\ running (step_ready s) = running s /\
+  submitted (step_ready s) = submitted s.
+Proof.
+  unfold step_ready. proj.
+  destruct (paused s).
+  - destruct (is_available _).
+    + match goal with |- context [notify ?x] => pose proof (notify_frame x) as F end. proj.
+      destruct F as (-> & -> & -> & -> & -> & _ & _ & _ & -> & -> & _). repeat split; reflexivity.
+    + proj. repeat split; reflexivity.
+  - destruct (publish_flag s || is_available _).
+    + match goal with |- context [notify ?x] => pose proof (notify_frame x) as F end. proj.
+      destruct F as (-> & -> & -> & -> & -> & _ & _ & _ & -> & -> & _). repeat split; reflexivity.
+    + proj. repeat split; reflexivity.
+Qed.
+
+(* what the answer of a poll depends on *)
+Lemma step_ready_answer s :
+  may_call (step_ready s) = if paused s then is_available s else publish_flag s || is_available s.
+Proof.
+  unfold step_ready. proj.
+  assert (E1 : is_available (set_waker (set_woken s false) true) = is_available s) by reflexivity.
+  assert (E2 : is_available (set_woken s false) = is_available s) by reflexivity.
+  rewrite E1, E2.
+  destruct (paused s).
+  - destruct (is_available s).
+    + match goal with |- context [notify ?x] => pose proof (notify_frame x) as F end. proj.
+      destruct F as (_ & _ & _ & _ & _ & _ & _ & -> & _). reflexivity.
+    + proj. reflexivity.
+  - destruct (publish_flag s || is_available s).
+    + match goal with |- context [notify ?x] => pose proof (notify_frame x) as F end. proj.
+      destruct F as (_ & _ & _ & _ & _ & _ & _ & -> & _). reflexivity.
+    + proj. reflexivity.
+Qed.
+
+Lemma step_ready_paused s : paused (step_ready s) = negb (may_call (step_ready s)).
+Proof.
+  unfold step_ready. proj.
+  destruct (paused s) eqn:Ep.
+  - destruct (is_available _).
+    + match goal with |- context [notify ?x] => pose proof (notify_frame x) as F end. proj.
+      destruct F as (_ & _ & _ & _ & _ & _ & -> & -> & _). proj. rewrite ?Ep. reflexivity.
+    + proj. rewrite ?Ep. reflexivity.
+  - destruct (publish_flag s || is_available _).
+    + match goal with |- context [notify ?x] => pose proof (notify_frame x) as F end. proj.
+      destruct F as (_ & _ & _ & _ & _ & _ & -> & -> & _). proj. rewrite ?Ep. reflexivity.
+    + proj. rewrite ?Ep. reflexivity.
+Qed.
+
+(* a pending answer leaves the waker registered in the counter and in the waiters slot *)
+Lemma step_ready_pending s :
+  may_call (step_ready s) = false ->
+  waker_registered (step_ready s) = true /\ pl_waker (step_ready s) = true /\ woken (step_ready s) = false.
+Proof.
+  unfold step_ready. proj.
+  destruct (paused s).
+  - destruct (is_available _).
+    + match goal with |- context [notify ?x] => pose proof (notify_frame x) as F end. proj.
+      destruct F as (_ & _ & _ & _ & _ & _ & _ & -> & _). discriminate.
+    + proj. auto.
+  - destruct (publish_flag s || is_available _).
+    + match goal with |- context [notify ?x] => pose proof (notify_frame x) as F end. proj.
+      destruct F as (_ & _ & _ & _ & _ & _ & _ & -> & _). discriminate.
+    + proj. auto.
+Qed.
+
+(* ------------------------------------------------------------------ Inv0: the counters count *)
+Definition Inv0 (mc ms : N) (s : lim) : Prop :=
+  max_cap s = mc /\ max_size s = ms /\ cur_cap s = lenN (running s) /\ cur_size s = sum_sizes (running s).
+
+Lemma inv0_init mc ms : Inv0 mc ms (lim_init mc ms).
+Proof. repeat split. Qed.
+
+Lemma step_complete_ok s k s' :
+  step_complete s k = Ok s' ->
+  (nth_error (running s) k = None /\ s' = s) \/
+  exists c, nth_error (running s) k = Some c /\
+            dec (set_running s (remove_nth k (running s))) (c_size c) = Ok s'.
+Proof.
+  unfold step_complete. destruct (nth_error (running s) k) as [c|].
+  - intros H. right. exists c. auto.
+  - intros H. injection H as <-. left. auto.
+Qed.
+
+Lemma step_start_ok s j s' :
+  step_start s j = Ok s' ->
+  (nth_error (submitted s) j = None /\ s' = s) \/
+  exists k size, nth_error (submitted s) j = Some (k, size) /\
+                 first_poll (set_submitted s (remove_nth j (submitted s))) k size = Ok s'.
+Proof.
+  unfold step_start. destruct (nth_error (submitted s) j) as [[k size]|].
+  - intros H. right. exists k, size. auto.
+  - intros H. injection H as <-. left. auto.
+Qed.
+
+Lemma inv0_first_poll mc ms s k size s' :
+  Inv0 mc ms s -> first_poll s k size = Ok s' -> Inv0 mc ms s'.
+Proof.
+  intros (I1 & I2 & I3 & I4) H. apply first_poll_ok in H.
+  destruct H as (_ & A1 & A2 & A3 & A4 & _ & _ & _ & A9 & _).
+  unfold Inv0. rewrite A1, A2, A3, A4, A9, lenN_app, sum_sizes_app. cbn [c_size]. repeat split; auto; lia.
+Qed.
+
+Lemma inv0_step mc ms s o s' : Inv0 mc ms s -> step s o = Ok s' -> Inv0 mc ms s'.
+Proof.
+  intros I H. destruct o as [|k size|k|k size|j]; cbn [step] in H.
+  - injection H as <-. destruct I as (I1 & I2 & I3 & I4).
+    pose proof (step_ready_frame s) as (A1 & A2 & A3 & A4 & _ & A6 & _).
+    unfold Inv0. rewrite A1, A2, A3, A4, A6. auto.
+  - unfold step_call in H. destruct (first_poll s k size) as [s1| |] eqn:E; cbn [bind] in H; try discriminate.
+    injection H as <-. pose proof (inv0_first_poll _ _ _ _ _ _ I E) as (J1 & J2 & J3 & J4).
+    unfold Inv0. proj. auto.
+  - apply step_complete_ok in H. destruct H as [(_ & ->)|(c & Hn & Hd)]; [assumption|].
+    destruct I as (I1 & I2 & I3 & I4).
+    apply dec_ok in Hd. proj. destruct Hd as (D1 & D2 & D3 & D4 & D5 & D6 & _ & _ & _ & _ & D11 & _).
+    unfold Inv0. rewrite D3, D4, D5, D6, D11.
+    pose proof (remove_nth_len _ _ _ Hn). pose proof (remove_nth_sum _ _ _ Hn).
+    repeat split; auto; lia.
+  - injection H as <-. destruct I as (I1 & I2 & I3 & I4). unfold Inv0, step_submit. proj. auto.
+  - apply step_start_ok in H. destruct H as [(_ & ->)|(k & size & Hn & Hf)]; [assumption|].
+    eapply inv0_first_poll; [|exact Hf]. destruct I as (I1 & I2 & I3 & I4). unfold Inv0. proj. auto.
+Qed.
+
+Lemma inv0_run mc ms ops : forall s s', Inv0 mc ms s -> run_from s ops = Ok s' -> Inv0 mc ms s'.
+Proof.
+  induction ops as [|o r IH]; intros s s' I H; cbn [run_from] in H.
+  - injection H as <-. assumption.
+  - destruct (step s o) as [s1| |] eqn:E; cbn [bind] in H; try discriminate.
+    eapply IH; [|exact H]. eapply inv0_step; eassumption.
+Qed.
+
+(* ------------------------------------------------------------------ no panic: every op sequence *)
+Definition NP (s : lim) (n : N) : Prop :=
+  cur_cap s = lenN (running s) /\ cur_size s = sum_sizes (running s) /\
+  lenN (running s) <= n /\ cur_size s <= n * U32MAX /\
+  Forall (fun p : kind * N => snd p <= U32MAX) (submitted s).
+
+Lemma gsize_le s size : gsize_of s size <= size.
+Proof. unfold gsize_of. destruct (0 <? max_size s); lia. Qed.
+
+Lemma Forall_remove_nth {A} (P : A -> Prop) l k : Forall P l -> Forall P (remove_nth k l).
+Proof.
+  intros H. revert k. induction H as [|h t Hh Ht IH]; intros [|k]; cbn [remove_nth]; auto.
+Qed.
+
+Lemma np_first_poll s n k size :
+  NP s n -> n < U16MAX -> size <= U32MAX ->
+  (forall site, first_poll s k size <> Panic site) /\
+  (forall s', first_poll s k size = Ok s' -> NP s' (n + 1)).
+Proof.
+  intros (N1 & N2 & N3 & N4 & N5) Hn Hs. pose proof (gsize_le s size) as Hg. split.
+  - intros site. apply first_poll_no_panic; unfold U16MAX, U64MAX, U32MAX in *; lia.
+  - intros s' H. apply first_poll_ok in H.
+    destruct H as (_ & _ & _ & A3 & A4 & _ & _ & _ & A9 & A10 & _).
+    unfold NP. rewrite A3, A4, A9, A10, lenN_app, sum_sizes_app. cbn [c_size].
+    repeat split; auto; unfold U32MAX in *; lia.
+Qed.
+
+Lemma np_step s n o :
+  NP s n -> n < U16MAX -> op_size_ok o = true ->
+  (forall site, step s o <> Panic site) /\ (forall s', step s o = Ok s' -> NP s' (n + 1)).
+Proof.
+  intros NPs Hn Hs. destruct o as [|k size|k|k size|j]; cbn [step].
+  - split; [discriminate|]. intros s' H. injection H as <-.
+    destruct NPs as (N1 & N2 & N3 & N4 & N5).
+    pose proof (step_ready_frame s) as (_ & _ & A3 & A4 & _ & A6 & A7).
+    unfold NP. rewrite A3, A4, A6, A7. repeat split; auto; unfold U32MAX in *; lia.
+  - cbn [op_size_ok frame_of] in Hs. apply N.leb_le in Hs.
+    destruct (np_first_poll s n k size NPs Hn Hs) as (P1 & P2). unfold step_call. split.
+    + intros site. destruct (first_poll s k size) eqn:E; cbn [bind]; try discriminate.
+      exfalso. exact (P1 _ eq_refl).
+    + intros s' H. destruct (first_poll s k size) as [s1| |] eqn:E; cbn [bind] in H; try discriminate.
+      injection H as <-. specialize (P2 _ eq_refl). destruct P2 as (Q1 & Q2 & Q3 & Q4 & Q5).
+      unfold NP. proj. auto.
+  - destruct NPs as (N1 & N2 & N3 & N4 & N5). unfold step_complete.
+    destruct (nth_error (running s) k) as [c|] eqn:En.
+    + pose proof (remove_nth_len _ _ _ En) as L1. pose proof (remove_nth_sum _ _ _ En) as L2. split.
+      * intros site. apply dec_no_panic; proj; lia.
+      * intros s' H. apply dec_ok in H. proj.
+        destruct H as (D1 & D2 & _ & _ & D5 & D6 & _ & _ & _ & _ & D11 & D12 & _).
+        unfold NP. rewrite D5, D6, D11, D12. repeat split; auto; unfold U32MAX in *; lia.
+    + split; [discriminate|]. intros s' H. injection H as <-.
+      unfold NP. repeat split; auto; unfold U32MAX in *; lia.
+  - split; [discriminate|]. intros s' H. injection H as <-.
+    cbn [op_size_ok frame_of] in Hs. apply N.leb_le in Hs.
+    destruct NPs as (N1 & N2 & N3 & N4 & N5). unfold NP, step_submit. proj.
+    repeat split; auto; try (unfold U32MAX in *; lia).
+    apply Forall_app. split; auto.
+  - destruct NPs as (N1 & N2 & N3 & N4 & N5). unfold step_start.
+    destruct (nth_error (submitted s) j) as [[k size]|] eqn:En.
+    + assert (Hsz : size <= U32MAX).
+      { apply nth_error_In in En. rewrite Forall_forall in N5. exact (N5 _ En). }
+      apply np_first_poll; auto. unfold NP. proj. repeat split; auto. apply Forall_remove_nth. assumption.
+    + split; [discriminate|]. intros s' H. injection H as <-.
+      unfold NP. repeat split; auto; unfold U32MAX in *; lia.
+Qed.
+
+Lemma np_run ops : forall s n site,
+  NP s n -> n + N.of_nat (length ops) <= U16MAX -> forallb op_size_ok ops = true ->
+  run_from s ops <> Panic site.
+Proof.
+  induction ops as [|o r IH]; intros s n site NPs Hn Hs; cbn [run_from]; [discriminate|].
+  cbn [forallb] in Hs. apply andb_true_iff in Hs as (Hs1 & Hs2).
+  cbn [length] in Hn. rewrite Nat2N.inj_succ in Hn.
+  assert (Hn1 : n < U16MAX) by lia.
+  destruct (np_step s n o NPs Hn1 Hs1) as (P1 & P2).
+  destruct (step s o) as [s1| |] eqn:E; cbn [bind]; try discriminate.
+  - apply (IH s1 (n + 1)); auto. lia.
+  - exfalso. exact (P1 _ eq_refl).
+Qed.
+
+Lemma no_panic mc ms ops site :
+  N.of_nat (length ops) <= U16MAX -> forallb op_size_ok ops = true -> run mc ms ops <> Panic site.
+Proof.
+  intros Hn Hs. unfold run. apply (np_run ops (lim_init mc ms) 0); auto.
+  unfold NP, lim_init. proj. repeat split; auto; cbn; lia.
+Qed.
+
+(* ------------------------------------------------------------------ InvA: what the legal discipline maintains *)
+Definition sub_ok (s : lim) : Prop :=
+  match submitted s with
+  | [] => True
+  | [_] => paused s = false /\ may_call s = false
+  | _ => False
+  end.
+
+Definition InvA (s : lim) : Prop :=
+  (paused s = true -> publish_flag s = false /\ may_call s = false /\ pl_waker s = true) /\
+  (may_call s = true -> publish_flag s = true \/ is_available s = true) /\
+  (paused s = true -> woken s = true \/ (waker_registered s = true /\ is_available s = false)) /\
+  sub_ok s.
+
+Lemma invA_init mc ms : InvA (lim_init mc ms).
+Proof. unfold InvA, sub_ok, lim_init. proj. repeat split; discriminate. Qed.
+
+Lemma invA_not_paused s : paused s = false -> may_call s = false -> sub_ok s -> InvA s.
+Proof. intros H1 H2 H3. unfold InvA. rewrite H1, H2. repeat split; try discriminate. assumption. Qed.
+
+Lemma sub_ok_may s : sub_ok s -> may_call s = true -> submitted s = [].
+Proof.
+  unfold sub_ok. destruct (submitted s) as [|x [|y t]]; auto.
+  - intros (_ & H) H'. congruence.
+  - intros [].
+Qed.
+
+Lemma invA_ready s : InvA s -> submitted s = [] -> InvA (step_ready s).
+Proof.
+  intros (A1 & A2 & A3 & A4) Hs.
+  pose proof (step_ready_answer s) as Ans. pose proof (step_ready_paused s) as Pa.
+  pose proof (step_ready_frame s) as (F1 & F2 & F3 & F4 & F5 & _ & F7).
+  pose proof (is_available_eq s (step_ready s) F1 F2 F3 F4) as Av.
+  assert (S' : sub_ok (step_ready s)) by (unfold sub_ok; rewrite F7, Hs; exact I).
+  destruct (may_call (step_ready s)) eqn:Em; cbn [negb] in Pa; symmetry in Ans.
+  - unfold InvA. rewrite Pa, Em, F5, Av. split; [discriminate|]. split; [|split; [discriminate|exact S']].
+    intros _. destruct (paused s); [right; exact Ans|]. apply orb_true_iff in Ans. exact Ans.
+  - destruct (step_ready_pending s Em) as (W1 & W2 & W3).
+    assert (Hna : is_available s = false).
+    { destruct (paused s); [exact Ans|]. apply orb_false_iff in Ans. apply Ans. }
+    assert (Hnf : publish_flag s = false).
+    { destruct (paused s) eqn:Ep; [apply A1; reflexivity|]. apply orb_false_iff in Ans. apply Ans. }
+    unfold InvA. rewrite Pa, Em, F5, Av, W1, W2. split; [auto|]. split; [discriminate|].
+    split; [|exact S']. intros _. right. auto.
+Qed.
+
+Lemma avail_dec_mono s s' g :
+  max_cap s' = max_cap s -> max_size s' = max_size s ->
+  cur_cap s' = cur_cap s - 1 -> cur_size s' = cur_size s - g ->
+  is_available s = true -> is_available s' = true.
+Proof.
+  unfold is_available. intros -> -> -> -> H.
+  apply andb_true_iff in H as (H1 & H2). apply orb_true_iff in H1, H2.
+  apply andb_true_iff. split; apply orb_true_iff.
+  - destruct H1 as [H1|H1]; [left; assumption|right]. b2p; try discriminate; try reflexivity; lia.
+  - destruct H2 as [H2|H2]; [left; assumption|right]. b2p; try discriminate; try reflexivity; lia.
+Qed.
+
+Lemma ready_allowed s : op_allowed s Ready = true -> submitted s = [].
+Proof. cbn [op_allowed]. destruct (submitted s); [reflexivity|discriminate]. Qed.
+
+Lemma invA_step s o s' : InvA s -> op_allowed s o = true -> step s o = Ok s' -> InvA s'.
+Proof.
+  intros IA Hal H. destruct o as [|k size|k|k size|j]; cbn [step] in *.
+  - injection H as <-. apply invA_ready; [assumption|]. apply ready_allowed. assumption.
+  - cbn [op_allowed rr_allowed] in Hal. destruct IA as (A1 & A2 & A3 & A4).
+    pose proof (sub_ok_may _ A4 Hal) as Hs.
+    unfold step_call in H. destruct (first_poll s k size) as [s1| |] eqn:E; cbn [bind] in H; try discriminate.
+    injection H as <-. apply first_poll_ok in E. destruct E as (_ & _ & _ & _ & _ & _ & P & _ & _ & S & _).
+    apply invA_not_paused; proj; auto. unfold sub_ok. proj. rewrite S, Hs. exact I.
+  - apply step_complete_ok in H. destruct H as [(_ & ->)|(c & Hn & Hd)]; [assumption|].
+    destruct IA as (A1 & A2 & A3 & A4).
+    apply dec_ok in Hd. proj.
+    destruct Hd as (D1 & D2 & D3 & D4 & D5 & D6 & D7 & D8 & D9 & D10 & _ & D12 & Dw & Dk & Dn).
+    unfold InvA, sub_ok. rewrite D7, D8, D9, D10, D12. split; [exact A1|]. split; [|split; [|exact A4]].
+    + intros Hm. destruct (A2 Hm) as [Hf|Hav]; [left; assumption|right].
+      eapply avail_dec_mono; [exact D3|exact D4|exact D5|exact D6|]. exact Hav.
+    + intros Hp. destruct (A3 Hp) as [Hw|(Hr & Hna)]; [left; auto|].
+      match type of Dn with (?c = false -> _) => destruct c eqn:Ec end.
+      * left. apply Dk; auto.
+      * right. split; [rewrite Dn; auto|].
+        clear Dk Dn Dw. revert Hna Ec. unfold is_available. rewrite D3, D4, D5, D6. proj.
+        intros Hna Ec. apply orb_false_iff in Ec as (E1 & E2).
+        apply andb_false_iff in Hna. apply andb_false_iff.
+        destruct Hna as [Hna|Hna]; apply orb_false_iff in Hna as (H1 & H2).
+        -- left. apply orb_false_iff. split; [assumption|]. b2p; try discriminate; try reflexivity; lia.
+        -- right. apply orb_false_iff. split; [assumption|].
+           apply andb_false_iff in E2. b2p; try discriminate; try reflexivity; try lia;
+             destruct E2; discriminate.
+  - cbn [op_allowed rr_allowed] in Hal. injection H as <-. destruct IA as (A1 & A2 & A3 & A4).
+    pose proof (sub_ok_may _ A4 Hal) as Hs.
+    assert (Hp : paused s = false).
+    { destruct (paused s) eqn:Ep; [|reflexivity]. destruct (A1 eq_refl) as (_ & Hm & _). congruence. }
+    apply invA_not_paused; unfold step_submit; proj; auto.
+    unfold sub_ok. proj. rewrite Hs. cbn [app]. auto.
+  - cbn [op_allowed rr_allowed] in Hal. apply negb_true_iff in Hal.
+    apply step_start_ok in H. destruct H as [(_ & ->)|(k & size & Hn & Hf)]; [assumption|].
+    destruct IA as (A1 & A2 & A3 & A4).
+    apply first_poll_ok in Hf. proj. destruct Hf as (_ & _ & _ & _ & _ & _ & P & M & _ & S & _).
+    apply invA_not_paused; auto; [congruence|].
+    unfold sub_ok in *. rewrite S. destruct (submitted s) as [|x [|y t]]; try contradiction.
+    + destruct j; discriminate.
+    + destruct j as [|[|j]]; cbn [remove_nth nth_error] in *; try discriminate. exact I.
+Qed.
+
+(* under the legal discipline a first poll never meets a pending readiness check: the runs stay
+   inside the modelled domain *)
+Lemma step_in_domain s o e : InvA s -> op_allowed s o = true -> step s o <> Err e.
+Proof.
+  intros (A1 & A2 & A3 & A4) Hal. destruct o as [|k size|k|k size|j]; cbn [step]; try discriminate.
+  - cbn [op_allowed rr_allowed] in Hal.
+    assert (Hp : paused s = false).
+    { destruct (paused s) eqn:Ep; [|reflexivity]. destruct (A1 eq_refl) as (_ & Hm & _). congruence. }
+    unfold step_call, first_poll. rewrite Hp.
+    match goal with |- context [inc ?x ?g] => destruct (inc x g) as [s2| |] eqn:Ei end; cbn [bind]; try discriminate.
+    exfalso. unfold inc, add_chk in Ei.
+    repeat match type of Ei with context [if ?c then _ else _] => destruct c; cbn [bind] in Ei; try discriminate end.
+  - unfold step_complete. destruct (nth_error (running s) k); [|discriminate].
+    unfold dec, sub_chk.
+    repeat match goal with |- context [if ?c then _ else _] => destruct c; cbn [bind]; try discriminate end.
+  - unfold step_start. destruct (nth_error (submitted s) j) as [[k size]|] eqn:En; [|discriminate].
+    assert (Hp : paused s = false).
+    { unfold sub_ok in A4. destruct (submitted s) as [|x [|y t]]; try contradiction.
+      - destruct j; discriminate.
+      - apply A4. }
+    unfold first_poll. proj. rewrite Hp.
+    match goal with |- context [inc ?x ?g] => destruct (inc x g) as [s2| |] eqn:Ei end; cbn [bind]; try discriminate.
+    exfalso. unfold inc, add_chk in Ei.
+    repeat match type of Ei with context [if ?c then _ else _] => destruct c; cbn [bind] in Ei; try discriminate end.
+Qed.
+
+Lemma legal_go_cons s o r :
+  legal_go s (o :: r) = true ->
+  op_allowed s o = true /\ (forall s', step s o = Ok s' -> legal_go s' r = true).
+Proof.
+  cbn [legal_go]. intros H. apply andb_true_iff in H as (H1 & H2). split; [assumption|].
+  intros s' E. rewrite E in H2. assumption.
+Qed.
+
+Lemma invA_run mc ms ops : forall s s',
+  Inv0 mc ms s -> InvA s -> legal_go s ops = true -> run_from s ops = Ok s' -> InvA s'.
+Proof.
+  induction ops as [|o r IH]; intros s s' I0 IA L H; cbn [run_from] in H.
+  - injection H as <-. assumption.
+  - destruct (step s o) as [s1| |] eqn:E; cbn [bind] in H; try discriminate.
+    apply legal_go_cons in L as (L1 & L2).
+    eapply IH; [| |apply L2; exact E|exact H].
+    + eapply inv0_step; eassumption.
+    + eapply invA_step; eassumption.
+Qed.
+
+Lemma in_domain_run ops : forall s e, InvA s -> legal_go s ops = true -> run_from s ops <> Err e.
+Proof.
+  induction ops as [|o r IH]; intros s e IA L; cbn [run_from]; [discriminate|].
+  apply legal_go_cons in L as (L1 & L2).
+  destruct (step s o) as [s1| |] eqn:E; cbn [bind]; try discriminate.
+  - apply IH; [eapply invA_step; eassumption|apply L2; reflexivity].
+  - exfalso. exact (step_in_domain s o _ IA L1 E).
+Qed.
+
+Lemma in_domain mc ms ops e : legal mc ms ops = true -> run mc ms ops <> Err e.
+Proof. intros L. apply in_domain_run; [apply invA_init|exact L]. Qed.
+
+Lemma legal_go_app a : forall s b s1,
+  legal_go s (a ++ b) = true -> run_from s a = Ok s1 -> legal_go s a = true /\ legal_go s1 b = true.
+Proof.
+  induction a as [|o r IH]; intros s b s1 L H; cbn [app run_from] in *.
+  - injection H as <-. auto.
+  - destruct (step s o) as [s2| |] eqn:E; cbn [bind] in H; try discriminate.
+    apply legal_go_cons in L as (L1 & L2). specialize (L2 _ E).
+    destruct (IH _ _ _ L2 H) as (Q1 & Q2). split; [|assumption].
+    cbn [legal_go]. rewrite L1, E. assumption.
+Qed.
+
+Lemma run_from_app a : forall s b s1, run_from s a = Ok s1 -> run_from s (a ++ b) = run_from s1 b.
+Proof.
+  induction a as [|o r IH]; intros s b s1 H; cbn [app run_from] in *.
+  - injection H as <-. reflexivity.
+  - destruct (step s o) as [s2| |] eqn:E; cbn [bind] in *; try discriminate. apply IH. assumption.
+Qed.
+
+(* legality is prefix closed: every reachable state is the state after a legal sequence *)
+Lemma legal_prefix mc ms a b s1 :
+  legal mc ms (a ++ b) = true -> run mc ms a = Ok s1 -> legal mc ms a = true.
+Proof. unfold legal, run. intros L H. exact (proj1 (legal_go_app _ _ _ _ L H)). Qed.
+
+(* the legal discipline implies the bare reading rule *)
+Lemma legal_reading_rule ops : forall s, legal_go s ops = true -> reading_rule_go s ops = true.
+Proof.
+  induction ops as [|o r IH]; intros s L; [reflexivity|].
+  cbn [legal_go reading_rule_go] in *. apply andb_true_iff in L as (L1 & L2).
+  apply andb_true_iff. split.
+  - destruct o; cbn [op_allowed] in L1; auto.
+  - destruct (step s o); auto.
+Qed.
+
+(* ------------------------------------------------------------------ theorems about every legal run *)
+Section Reach.
+  Variables (mc ms : N) (ops : list op) (s : lim).
+  Hypothesis L : legal mc ms ops = true.
+  Hypothesis R : run mc ms ops = Ok s.
+
+  Lemma reach_inv0 : Inv0 mc ms s.
+  Proof. eapply inv0_run; [apply inv0_init|exact R]. Qed.
+
+  Lemma reach_invA : InvA s.
+  Proof. eapply invA_run; [apply inv0_init|apply invA_init|exact L|exact R]. Qed.
+
+  Lemma no_lost_wake : paused s = true -> is_available s = true -> woken s = true.
+  Proof.
+    intros Hp Ha. destruct reach_invA as (_ & _ & A3 & _). destruct (A3 Hp) as [Hw|(_ & Hn)]; [assumption|].
+    congruence.
+  Qed.
+
+  Lemma resume : is_available s = true -> may_call (step_ready s) = true.
+  Proof. intros Ha. rewrite step_ready_answer, Ha. destruct (paused s); [reflexivity|apply orb_true_r]. Qed.
+
+  Lemma chunks_bypass_ready : publish_flag s = true -> may_call (step_ready s) = true.
+  Proof.
+    intros Hf. rewrite step_ready_answer. destruct reach_invA as (A1 & _).
+    destruct (paused s); [|rewrite Hf; reflexivity].
+    destruct (A1 eq_refl) as (Hf' & _). congruence.
+  Qed.
+
+  Lemma progress : running s = [] -> may_call (step_ready s) = true.
+  Proof.
+    intros Hr. apply resume. destruct reach_inv0 as (_ & _ & I3 & I4). rewrite Hr in I3, I4.
+    unfold is_available. rewrite I3, I4. cbn [lenN length sum_sizes fold_right N.of_nat].
+    apply andb_true_iff. split; apply orb_true_iff; b2p; auto; try lia.
+  Qed.
+End Reach.
+
+Lemma flag_after_call s k size s' :
+  step s (Call k size) = Ok s' -> publish_flag s' = is_publish k || (publish_flag s && is_chunk k).
+Proof.
+  cbn [step]. unfold step_call. intros H.
+  destruct (first_poll s k size) as [s1| |] eqn:E; cbn [bind] in H; try discriminate.
+  injection H as <-. apply first_poll_ok in E. proj. apply E.
+Qed.
+
+Lemma chunks_bypass mc ms ops s :
+  legal mc ms ops = true -> run mc ms ops = Ok s -> publish_flag s = true ->
+  may_call (step_ready s) = true /\
+  (forall size s', step s (Call KChunk size) = Ok s' -> publish_flag s' = true) /\
+  (forall size s', step s (Call KChunkFinal size) = Ok s' -> publish_flag s' = false).
+Proof.
+  intros L R Hf. split; [eapply chunks_bypass_ready; eassumption|]. split; intros size s' H;
+    apply flag_after_call in H; rewrite H, Hf; reflexivity.
+Qed.
+
+(* completions do not touch the readiness future *)
+Lemma paused_completes cs : forall s s', run_from s (map Complete cs) = Ok s' -> paused s' = paused s.
+Proof.
+  induction cs as [|k r IH]; intros s s' H; cbn [map run_from step] in H.
+  - injection H as <-. reflexivity.
+  - destruct (step_complete s k) as [s1| |] eqn:E; cbn [bind] in H; try discriminate.
+    rewrite (IH _ _ H). apply step_complete_ok in E. destruct E as [(_ & ->)|(c & _ & Hd)]; [reflexivity|].
+    apply dec_ok in Hd. proj. apply Hd.
+Qed.
+
+Lemma no_lost_wake_seq mc ms pre cs s0 s :
+  legal mc ms (pre ++ Ready :: map Complete cs) = true ->
+  run mc ms pre = Ok s0 -> may_call (step_ready s0) = false ->
+  run mc ms (pre ++ Ready :: map Complete cs) = Ok s ->
+  is_available s = true -> woken s = true.
+Proof.
+  intros L R0 Hp R Ha. eapply no_lost_wake; try eassumption.
+  unfold run in *. rewrite (run_from_app _ _ _ _ R0) in R. cbn [run_from step bind] in R.
+  rewrite (paused_completes _ _ _ R), step_ready_paused, Hp. reflexivity.
+Qed.
+
+(* ------------------------------------------------------------------ InvB: the limits, for frames in codec order *)
+
+(* [st] / [last]: stream state and last packet size after the frames handed over so far; a frame
+   that is handed over and not started yet has been admitted but not counted *)
+Definition InvB (s : lim) (st : bool) (last : N) : Prop :=
+  match submitted s with
+  | [] => publish_flag s = st
+  | [(k, size)] =>
+    (publish_flag s = true \/ is_available s = true) /\
+    (if publish_flag s then chunk_kind k = true /\ size = 0 else chunk_kind k = false /\ last = size) /\
+    st = (if publish_flag s then is_chunk k else is_publish k)
+  | _ => False
+  end /\
+  (max_cap s <> 0 -> count_kind nonchunk (running s) <= max_cap s) /\
+  (max_size s <> 0 -> cur_size s <= max_size s + last).
+
+Definition stream_step (st : bool) (o : op) : bool :=
+  match frame_of o with
+  | Some (k, _) => if st then is_chunk k else is_publish k
+  | None => st
+  end.
+Definition last_step (last : N) (o : op) : N :=
+  match frame_of o with
+  | Some (k, size) => if chunk_kind k then last else size
+  | None => last
+  end.
+Definition wf_op (st : bool) (o : op) : bool :=
+  match frame_of o with
+  | Some (k, size) => if st then chunk_kind k && (size =? 0) else negb (chunk_kind k)
+  | None => true
+  end.
+Definition stream_after (st : bool) (ops : list op) : bool := fold_left stream_step ops st.
+
+Lemma wf_stream_go_cons st o r :
+  wf_stream_go st (o :: r) = wf_op st o && wf_stream_go (stream_step st o) r.
+Proof.
+  cbn [wf_stream_go]. unfold wf_op, stream_step. destruct (frame_of o) as [[k size]|]; [|reflexivity].
+  destruct st; [|reflexivity]. rewrite <- andb_assoc. reflexivity.
+Qed.
+
+Lemma last_size_go_cons last o r : last_size_go last (o :: r) = last_size_go (last_step last o) r.
+Proof. cbn [last_size_go]. unfold last_step. destruct (frame_of o) as [[k size]|]; reflexivity. Qed.
+
+Lemma wf_stream_go_app a : forall st b,
+  wf_stream_go st (a ++ b) = wf_stream_go st a && wf_stream_go (stream_after st a) b.
+Proof.
+  induction a as [|o r IH]; intros st b; [reflexivity|].
+  cbn [app]. rewrite !wf_stream_go_cons, IH. unfold stream_after. cbn [fold_left].
+  rewrite andb_assoc. reflexivity.
+Qed.
+
+Lemma chunk_not_publish k : chunk_kind k = true -> is_publish k = false.
+Proof. destruct k; try reflexivity; discriminate. Qed.
+
+(* the first poll of a frame that was admitted in state (flag, counters) and is the next frame in
+   codec order keeps the limits *)
+Lemma invB_first_poll mc ms s k size last s' (st' : bool) (last' : N) :
+  Inv0 mc ms s ->
+  (publish_flag s = true \/ is_available s = true) ->
+  (if publish_flag s then chunk_kind k = true /\ size = 0 else chunk_kind k = false /\ last' = size) ->
+  (publish_flag s = true -> last' = last) ->
+  st' = (if publish_flag s then is_chunk k else is_publish k) ->
+  (max_cap s <> 0 -> count_kind nonchunk (running s) <= max_cap s) ->
+  (max_size s <> 0 -> cur_size s <= max_size s + last) ->
+  first_poll s k size = Ok s' ->
+  publish_flag s' = st' /\
+  (max_cap s' <> 0 -> count_kind nonchunk (running s') <= max_cap s') /\
+  (max_size s' <> 0 -> cur_size s' <= max_size s' + last').
+Proof.
+  intros (I1 & I2 & I3 & I4) Hadm Hwf Hl Hst B2 B3 H.
+  apply first_poll_ok in H. destruct H as (_ & F1 & F2 & F3 & F4 & F5 & _ & _ & F9 & _).
+  rewrite F1, F2, F4, F5, F9, count_kind_app. cbn [c_kind]. unfold flag_after.
+  pose proof (gsize_le s size) as Hg.
+  destruct (publish_flag s) eqn:Ef.
+  - destruct Hwf as (Hc & ->). rewrite (chunk_not_publish _ Hc). cbn [orb andb].
+    assert (Hnc : nonchunk k = false) by (unfold nonchunk; rewrite Hc; reflexivity).
+    rewrite Hnc. rewrite (Hl eq_refl).
+    split; [auto|]. split; intros Hm; [specialize (B2 Hm)|specialize (B3 Hm)]; lia.
+  - destruct Hwf as (Hc & ->). cbn [andb]. rewrite orb_false_r.
+    assert (Hnc : nonchunk k = true) by (unfold nonchunk; rewrite Hc; reflexivity).
+    rewrite Hnc.
+    destruct Hadm as [Hf|Hav]; [discriminate|].
+    unfold is_available in Hav. apply andb_true_iff in Hav as (Hcap & Hsz). apply orb_true_iff in Hcap, Hsz.
+    pose proof (count_kind_le_len nonchunk (running s)) as Hle.
+    split; [auto|]. split; intros Hm.
+    + destruct Hcap as [Hcap|Hcap]; b2p; try discriminate; try lia.
+    + destruct Hsz as [Hsz|Hsz]; b2p; try discriminate; try lia.
+Qed.
+
+Lemma invB_step mc ms s st last o s' :
+  Inv0 mc ms s -> InvA s -> InvB s st last ->
+  op_allowed s o = true -> wf_op st o = true -> step s o = Ok s' ->
+  InvB s' (stream_step st o) (last_step last o).
+Proof.
+  intros I0 (A1 & A2 & A3 & A4) (B1 & B2 & B3) Hal Hwf H.
+  destruct o as [|k size|k|k size|j]; cbn [step] in *.
+  - (* Ready *)
+    apply ready_allowed in Hal. injection H as <-.
+    pose proof (step_ready_frame s) as (F1 & F2 & F3 & F4 & F5 & F6 & F7).
+    unfold InvB, stream_step, last_step. cbn [frame_of]. rewrite F1, F2, F4, F5, F6, F7.
+    rewrite Hal in *. auto.
+  - (* Call: admitted and counted at once *)
+    cbn [op_allowed rr_allowed] in Hal. pose proof (sub_ok_may _ A4 Hal) as Hs. rewrite Hs in B1.
+    unfold step_call in H. destruct (first_poll s k size) as [s1| |] eqn:E; cbn [bind] in H; try discriminate.
+    injection H as <-.
+    unfold wf_op in Hwf. cbn [frame_of] in Hwf.
+    assert (S1 : submitted s1 = []).
+    { pose proof (first_poll_ok _ _ _ _ E) as F. rewrite <- Hs. apply F. }
+    unfold InvB, stream_step, last_step. cbn [frame_of]. proj. rewrite S1.
+    eapply (invB_first_poll mc ms s k size last s1); try eassumption.
+    + apply A2. assumption.
+    + rewrite B1. destruct st.
+      * apply andb_true_iff in Hwf as (Hc & Hz). apply N.eqb_eq in Hz. auto.
+      * apply negb_true_iff in Hwf. rewrite Hwf. auto.
+    + rewrite B1. intros ->. apply andb_true_iff in Hwf as (Hc & _). rewrite Hc. reflexivity.
+    + rewrite B1. reflexivity.
+  - (* Complete *)
+    apply step_complete_ok in H. destruct H as [(_ & ->)|(c & Hn & Hd)].
+    + unfold InvB, stream_step, last_step. cbn [frame_of]. auto.
+    + apply dec_ok in Hd. proj.
+      destruct Hd as (D1 & D2 & D3 & D4 & D5 & D6 & D7 & _ & _ & _ & D11 & D12 & _).
+      unfold InvB, stream_step, last_step. cbn [frame_of]. rewrite D3, D4, D6, D7, D11, D12.
+      pose proof (count_kind_remove nonchunk (running s) k) as Hle.
+      split; [|split].
+      * destruct (submitted s) as [|[k0 size0] [|y t]]; auto.
+        destruct B1 as (Q1 & Q2 & Q3). split; [|auto].
+        destruct Q1 as [Q1|Q1]; [left; assumption|right].
+        eapply avail_dec_mono; [exact D3|exact D4|exact D5|exact D6|exact Q1].
+      * intros Hm. specialize (B2 Hm). lia.
+      * intros Hm. specialize (B3 Hm). lia.
+  - (* Submit: admitted now, counted at its first poll *)
+    cbn [op_allowed rr_allowed] in Hal. pose proof (sub_ok_may _ A4 Hal) as Hs. rewrite Hs in B1.
+    injection H as <-. unfold wf_op in Hwf. cbn [frame_of] in Hwf.
+    unfold InvB, step_submit, stream_step, last_step. cbn [frame_of]. proj. rewrite Hs. cbn [app].
+    rewrite B1. split; [|split].
+    + split; [rewrite <- B1; apply A2; assumption|]. split; [|reflexivity].
+      destruct st.
+      * apply andb_true_iff in Hwf as (Hc & Hz). apply N.eqb_eq in Hz. auto.
+      * apply negb_true_iff in Hwf. rewrite Hwf. auto.
+    + assumption.
+    + intros Hm. specialize (B3 Hm). destruct st.
+      * apply andb_true_iff in Hwf as (Hc & _). rewrite Hc. assumption.
+      * apply negb_true_iff in Hwf. rewrite Hwf.
+        destruct (A2 Hal) as [Hf|Hav]; [congruence|].
+        unfold is_available in Hav. apply andb_true_iff in Hav as (_ & Hsz). apply orb_true_iff in Hsz.
+        destruct Hsz as [Hsz|Hsz]; b2p; try discriminate; try lia.
+  - (* Start: the first poll of the admitted frame *)
+    apply step_start_ok in H. destruct H as [(_ & ->)|(k & size & Hn & Hf)].
+    + unfold InvB, stream_step, last_step. cbn [frame_of]. auto.
+    + unfold sub_ok in A4. destruct (submitted s) as [|[k0 size0] [|y t]] eqn:Es; try contradiction.
+      * destruct j; discriminate.
+      * destruct j as [|[|j]]; cbn [nth_error remove_nth] in *; try discriminate.
+        injection Hn as -> ->. destruct B1 as (Q1 & Q2 & Q3).
+        assert (S1 : submitted s' = []).
+        { pose proof (first_poll_ok _ _ _ _ Hf) as F. proj. apply F. }
+        unfold InvB, stream_step, last_step. cbn [frame_of]. rewrite S1.
+        eapply (invB_first_poll mc ms (set_submitted s []) k size last s'); proj; try eassumption.
+        all: try (destruct I0 as (J1 & J2 & J3 & J4); unfold Inv0; proj; now auto).
+        all: try reflexivity.
+        all: try (destruct (publish_flag s); [now auto|]; destruct Q2 as (Hc & ->); now auto).
+Qed.
+
+Lemma invB_run mc ms ops : forall s st last s',
+  Inv0 mc ms s -> InvA s -> InvB s st last ->
+  legal_go s ops = true -> wf_stream_go st ops = true -> run_from s ops = Ok s' ->
+  InvB s' (stream_after st ops) (last_size_go last ops).
+Proof.
+  induction ops as [|o r IH]; intros s st last s' I0 IA IB L Hwf H; cbn [run_from] in H.
+  - injection H as <-. assumption.
+  - destruct (step s o) as [s1| |] eqn:E; cbn [bind] in H; try discriminate.
+    apply legal_go_cons in L as (L1 & L2).
+    rewrite wf_stream_go_cons in Hwf. apply andb_true_iff in Hwf as (Hw1 & Hw2).
+    rewrite last_size_go_cons. unfold stream_after. cbn [fold_left].
+    eapply IH; [| | |apply L2; exact E|exact Hw2|exact H].
+    + eapply inv0_step; eassumption.
+    + eapply invA_step; eassumption.
+    + eapply invB_step; eassumption.
+Qed.
+
+Lemma invB_init mc ms : InvB (lim_init mc ms) false 0.
+Proof. unfold InvB, lim_init. proj. repeat split; intros; cbn; lia. Qed.
+
+Lemma reach_invB mc ms ops s :
+  legal mc ms ops = true -> wf_stream ops = true -> run mc ms ops = Ok s ->
+  InvB s (stream_after false ops) (last_size ops).
+Proof.
+  intros L Hwf R. unfold last_size.
+  eapply invB_run; try eassumption; [apply inv0_init|apply invA_init|apply invB_init].
+Qed.
+
+Lemma publish_nonchunk k : publish_kind k = true -> nonchunk k = true.
+Proof. destruct k; cbn; auto. Qed.
+
+Lemma overlap_bounded mc ms ops s :
+  mc <> 0 -> legal mc ms ops = true -> wf_stream ops = true -> run mc ms ops = Ok s ->
+  count_kind nonchunk (running s) <= mc /\ count_kind publish_kind (running s) <= mc /\
+  cur_cap s = count_kind nonchunk (running s) + count_kind chunk_kind (running s).
+Proof.
+  intros Hm L Hwf R. destruct (reach_invB _ _ _ _ L Hwf R) as (_ & B2 & _).
+  destruct (reach_inv0 _ _ _ _ R) as (I1 & _ & I3 & _). rewrite I1 in B2. specialize (B2 Hm).
+  split; [assumption|]. split.
+  - pose proof (count_kind_mono publish_kind nonchunk (running s) publish_nonchunk). lia.
+  - rewrite I3. unfold count_kind, nonchunk, lenN. clear.
+    induction (running s) as [|h t IH]; cbn [filter length]; [reflexivity|].
+    destruct (chunk_kind (c_kind h)); cbn [negb length]; lia.
+Qed.
+
+Lemma bytes_bounded mc ms ops s :
+  ms <> 0 -> legal mc ms ops = true -> wf_stream ops = true -> run mc ms ops = Ok s ->
+  cur_size s <= ms + last_size ops.
+Proof.
+  intros Hm L Hwf R. destruct (reach_invB _ _ _ _ L Hwf R) as (_ & _ & B3).
+  destruct (reach_inv0 _ _ _ _ R) as (_ & I2 & _). rewrite I2 in B3. auto.
+Qed.
+
+(* admission: a packet that is not a payload chunk is handed over (inline or spawned) only when
+   the counter is available *)
+Lemma admission mc ms pre o k size s0 :
+  frame_of o = Some (k, size) ->
+  legal mc ms (pre ++ [o]) = true -> wf_stream (pre ++ [o]) = true ->
+  chunk_kind k = false -> run mc ms pre = Ok s0 ->
+  (mc <> 0 -> cur_cap s0 < mc) /\ (ms <> 0 -> cur_size s0 <= ms).
+Proof.
+  intros Hfr L Hwf Hk R.
+  unfold legal in L. destruct (legal_go_app _ _ _ _ L R) as (L1 & L2).
+  unfold wf_stream in Hwf. rewrite wf_stream_go_app in Hwf. apply andb_true_iff in Hwf as (W1 & W2).
+  destruct (reach_invB _ _ _ _ L1 W1 R) as (B1 & _ & _).
+  destruct (reach_invA _ _ _ _ L1 R) as (_ & A2 & _ & A4).
+  destruct (reach_inv0 _ _ _ _ R) as (I1 & I2 & _).
+  apply legal_go_cons in L2 as (Hal & _).
+  assert (Hm : may_call s0 = true) by (destruct o; cbn [frame_of] in Hfr; try discriminate; exact Hal).
+  rewrite (sub_ok_may _ A4 Hm) in B1.
+  rewrite wf_stream_go_cons in W2. apply andb_true_iff in W2 as (W2 & _).
+  unfold wf_op in W2. rewrite Hfr in W2.
+  destruct (stream_after false pre) eqn:Es.
+  - rewrite Hk in W2. discriminate.
+  - destruct (A2 Hm) as [Hf|Hav]; [congruence|].
+    unfold is_available in Hav. rewrite I1, I2 in Hav.
+    apply andb_true_iff in Hav as (Hc & Hz). apply orb_true_iff in Hc, Hz.
+    split; intros Hm'; [destruct Hc as [Hc|Hc]|destruct Hz as [Hz|Hz]]; b2p; try discriminate; try lia.
+Qed.
+
+(* ------------------------------------------------------------------ what the bare reading rule allowed (before d435312) *)
+
+Lemma overlap_refuted_deferred :
+  reading_rule 2 0 (deferred_ops 5) = true /\ wf_stream (deferred_ops 5) = true /\
+  legal 2 0 (deferred_ops 5) = false /\
+  exists s, run 2 0 (deferred_ops 5) = Ok s /\ count_kind publish_kind (running s) = 3 /\ cur_cap s = 3.
+Proof. repeat (split; [vm_compute; reflexivity|]). eexists. vm_compute. repeat split. Qed.
+
+Lemma bytes_refuted_deferred :
+  reading_rule 0 10 (deferred_ops 8) = true /\ wf_stream (deferred_ops 8) = true /\
+  legal 0 10 (deferred_ops 8) = false /\
+  exists s, run 0 10 (deferred_ops 8) = Ok s /\ cur_size s = 24 /\ last_size (deferred_ops 8) = 8.
+Proof. repeat (split; [vm_compute; reflexivity|]). eexists. vm_compute. repeat split. Qed.
